@@ -90,6 +90,18 @@ def _(self: Port, consumer: Str) -> Token:
     ensures(forall(Str, lambda c: implies(old(c in self.queues) and c != consumer, self.queues[c] is old(self.queues[c]) and self.queues[c].items == old(self.queues[c].items))))
 
 
+@contract("streamflow/core/workflow.py", "Port.close")
+def _(self: Port, consumer: Str):
+    """a consumer that closes its side stays subscribed: were its queue released, a later get under the same name would be handed the
+    whole history again (tokens twice, tokens after the termination token)"""
+    requires(port_inv(self))
+    assigns()
+    ensures(port_inv(self))
+    ensures(forall(Str, lambda c: (c in self.queues) == old(c in self.queues)))
+    ensures(forall(Str, lambda c: implies(old(c in self.queues), self.queues[c] is old(self.queues[c]) and self.queues[c].items == old(self.queues[c].items))))
+    ensures(self.token_list == old(self.token_list))
+
+
 # ---- filtering port ---------------------------------------------------------------------------------------------------------
 cls("FilterTokenPort", bases=["Port"])
 
